@@ -1,7 +1,7 @@
 (* C06 property theorems.  Nothing but statements closed by `exact`, a pin, and
    Print Assumptions.  The driver parses this file's output. *)
 From ZV.Common Require Import Base.
-From ZV.C06 Require Import Model ModelGold Spec ProofsBasic ProofsScan ProofsRefine ProofsSmall ProofsGoldRefine.
+From ZV.C06 Require Import Model ModelGold ModelEasy Spec ProofsBasic ProofsScan ProofsRefine ProofsSmall ProofsGoldRefine ProofsEasy.
 Open Scope N_scope.
 
 (* normalize_hash never produces a slot marker, whatever the hasher returned *)
@@ -44,6 +44,17 @@ Check gold_refines_map :
   forall (h ml : N -> N) (cfg : gcfg) (cap : N) (ops : list op),
     Forall2 obs_agree (grun h ml cfg (with_config ml cfg cap) ops) (srun [] ops).
 Print Assumptions gold_refines_map.
+
+(* EasyHashMap: a ZiporaHashMap rebuilt into a larger one when put() decides to grow - for every hasher,
+   every growth decision function (the f64 load-factor test is a parameter), auto_grow on or off *)
+Theorem easy_refines_map :
+  forall (h : N -> N) (grow : N -> N -> bool) (auto : bool) (c : N) (ops : list op),
+    pow2cap c -> Forall2 obs_agree (easy_run h grow auto (init c) ops) (srun [] ops).
+Proof. exact easy_refines_map_proof. Qed.
+Check easy_refines_map :
+  forall (h : N -> N) (grow : N -> N -> bool) (auto : bool) (c : N) (ops : list op),
+    pow2cap c -> Forall2 obs_agree (easy_run h grow auto (init c) ops) (srun [] ops).
+Print Assumptions easy_refines_map.
 
 (* remove_standard's probe loop (no tombstone branch) finds exactly what get_standard's finds *)
 Theorem remove_loop_is_get_loop :
